@@ -22,6 +22,7 @@ import (
 	"time"
 
 	"github.com/bronlabs/bron-crypto/pkg/base/algebra"
+	"github.com/bronlabs/bron-crypto/pkg/base/curves"
 	"github.com/bronlabs/bron-crypto/pkg/base/curves/k256"
 	"github.com/bronlabs/bron-crypto/pkg/base/curves/pairable/bls12381"
 	"github.com/bronlabs/bron-crypto/pkg/mpc/session"
@@ -457,46 +458,57 @@ func proofEditBody(cfgs []cfg) func(*engine.X) {
 		}
 		rejected, exempt, noop, isolated := 0, 0, 0, 0
 		classes := map[string]int{}
-		for _, ed := range eds[lo:hi] {
+		// pass 1: produce the edited proofs; structure-changing edits are verified in a child process (batched per
+		// chunk) because a panic inside a library errgroup goroutine cannot be recovered and would kill this process
+		chunk := eds[lo:hi]
+		edited := make([][]byte, len(chunk))
+		var risky []int
+		for i, ed := range chunk {
+			edited[i] = ed.gen(w)
+			if !bytes.Equal(edited[i], orig) && ed.class != "bit" && ed.class != "splice" {
+				risky = append(risky, i)
+			}
+		}
+		childRes := map[int]childResult{}
+		if len(risky) > 0 {
+			rs := runBatch(len(risky), func(from, to int) (string, []byte) {
+				var sb strings.Builder
+				for _, i := range risky[from:to] {
+					sb.WriteString(hex.EncodeToString(edited[i]))
+					sb.WriteByte('\n')
+				}
+				return "ni|" + n.name + "|" + string(c), []byte(sb.String())
+			})
+			for k, i := range risky {
+				childRes[i] = rs[k]
+			}
+			isolated += len(risky)
+		}
+		_ = baseNils
+		// pass 2: evaluate in order
+		for i, ed := range chunk {
 			x.Case(cf.String() + "/" + ed.desc)
-			edited := ed.gen(w)
-			if bytes.Equal(edited, orig) {
+			if bytes.Equal(edited[i], orig) {
 				noop++
 				continue
 			}
 			var verr error
-			var np []string
-			var derr error
-			_, dsite := guard(func() { np, derr = n.nils(c, edited) })
-			switch {
-			case dsite != "":
-				// the proof DECODER panics on this input; Verify decodes in the caller's goroutine, so confirm in-process
-				var site string
-				verr, site = safeVerify(n, c, verifierCtx().build(), stmtSel{}, edited)
-				if site != "" {
-					failf(x, "panic@"+site, "%s: Verify panicked while decoding the edited proof, in %s (%s): %v\n edited proof: %s", cf, site, ed.desc, verr, hexShort(edited))
-					continue
-				}
-			case derr == nil && !sameStrings(np, baseNils):
-				// the decoder admitted a nil component: Verify may dereference it inside a library goroutine, which
-				// would terminate this process, so this one verification runs in a child process
-				isolated++
-				res := runChild("ni|"+n.name+"|"+string(c), []byte(hex.EncodeToString(edited)))
+			if res, ok := childRes[i]; ok {
 				switch res.outcome {
 				case "CRASH":
-					failf(x, "crash@"+res.site, "%s: Verify TERMINATED THE PROCESS (unrecoverable panic in a library goroutine, in %s) on edited proof (%s): %s\n edited proof: %s", cf, res.site, ed.desc, res.detail, hexShort(edited))
+					failf(x, "crash@"+res.site, "%s: Verify TERMINATED THE PROCESS (unrecoverable panic in a library goroutine, in %s) on edited proof (%s): %s\n edited proof: %s", cf, res.site, ed.desc, res.detail, hexShort(edited[i]))
 					continue
 				case "PANIC":
-					failf(x, "panic@"+res.site, "%s: Verify panicked in %s on edited proof (%s): %s\n edited proof: %s", cf, res.site, ed.desc, res.detail, hexShort(edited))
+					failf(x, "panic@"+res.site, "%s: Verify panicked in %s on edited proof (%s): %s\n edited proof: %s", cf, res.site, ed.desc, res.detail, hexShort(edited[i]))
 					continue
 				case "REJECT":
 					verr = fmt.Errorf("%s", res.detail)
 				}
-			default:
+			} else {
 				var site string
-				verr, site = safeVerify(n, c, verifierCtx().build(), stmtSel{}, edited)
+				verr, site = safeVerify(n, c, verifierCtx().build(), stmtSel{}, edited[i])
 				if site != "" {
-					failf(x, "panic@"+site, "%s: Verify panicked in %s on edited proof (%s): %v\n edited proof: %s", cf, site, ed.desc, verr, hexShort(edited))
+					failf(x, "panic@"+site, "%s: Verify panicked in %s on edited proof (%s): %v\n edited proof: %s", cf, site, ed.desc, verr, hexShort(edited[i]))
 					continue
 				}
 			}
@@ -508,7 +520,7 @@ func proofEditBody(cfgs []cfg) func(*engine.X) {
 			// accepted: the mechanical exemption — the edit re-encodes the very same values
 			var rec []byte
 			var rerr error
-			if _, s := guard(func() { rec, rerr = n.recode(c, edited) }); s != "" {
+			if _, s := guard(func() { rec, rerr = n.recode(c, edited[i]) }); s != "" {
 				rerr = fmt.Errorf("recode panicked")
 			}
 			if rerr == nil && bytes.Equal(rec, orig) {
@@ -516,7 +528,7 @@ func proofEditBody(cfgs []cfg) func(*engine.X) {
 				classes["exempt:"+ed.class]++
 				continue
 			}
-			failf(x, "accepted/"+family(n.name)+"/"+compShort(c)+"/"+ed.class+"@"+genericPath(ed.desc), "%s: edited proof ACCEPTED (and it does not re-encode to the original bytes): %s\n original: %s\n edited:   %s", cf, ed.desc, hexShort(orig), hexShort(edited))
+			failf(x, "accepted/"+family(n.name)+"/"+compShort(c)+"/"+ed.class+"@"+genericPath(ed.desc), "%s: edited proof ACCEPTED (and it does not re-encode to the original bytes): %s\n original: %s\n edited:   %s", cf, ed.desc, hexShort(orig), hexShort(edited[i]))
 		}
 		x.Observe(cf, " chunk ", ch, " rejected ", rejected, " exempt ", exempt, " noop ", noop, " isolated ", isolated, " ", fmt.Sprint(classes))
 	}
@@ -545,6 +557,7 @@ func zkList(insts []*niInst) []*interactive {
 type plan struct {
 	all         []*niInst
 	fischlinSet map[*niInst]bool // configurations that also run under Fischlin / randomised Fischlin in quick
+	allBits     map[*niInst]bool // configurations whose Fiat-Shamir proof is edited at every bit in quick
 }
 
 var planOnce = sync.OnceValue(func() *plan {
@@ -553,10 +566,14 @@ var planOnce = sync.OnceValue(func() *plan {
 	// families: index 0 = plain, 1 = AND2, 2 = AND3, 3 = OR(left witness), 4 = OR(right witness)
 	famsK := [][]*niInst{fam(schnorrCase(k)), fam(batchSchnorrCase(k, 2)), fam(batchSchnorrCase(k, 3)), fam(okamotoCase(k)), fam(elcomopCase(k)), fam(elogCase(k))}
 	famsB := [][]*niInst{fam(schnorrCase(b)), fam(okamotoCase(b))[:1], fam(elogCase(b))[:1]}
-	pl := &plan{fischlinSet: map[*niInst]bool{}}
+	pl := &plan{fischlinSet: map[*niInst]bool{}, allBits: map[*niInst]bool{}}
 	for fi, f := range famsK {
 		pl.all = append(pl.all, f...)
 		pl.fischlinSet[f[0]] = true
+		pl.allBits[f[0]] = true
+		if fi == 0 || fi == 1 || fi == 3 { // Schnorr, batch-Schnorr(2), Okamoto: AND2 and OR-left as well
+			pl.allBits[f[1]], pl.allBits[f[3]] = true, true
+		}
 		if fi == 0 {
 			pl.fischlinSet[f[1]], pl.fischlinSet[f[3]] = true, true // Schnorr AND2 and OR(left)
 		}
@@ -565,12 +582,66 @@ var planOnce = sync.OnceValue(func() *plan {
 		pl.all = append(pl.all, f...)
 		if fi == 0 {
 			pl.fischlinSet[f[0]] = true
+			pl.allBits[f[0]] = true
 		}
 	}
 	return pl
 })
 
 func buildPlan() *plan { return planOnce() }
+
+// ecByName builds only the named EC instance ("<family>/<curve>[/<composition>][/zk]"); used by child processes.
+func ecByName(name string) *niInst {
+	parts := strings.Split(strings.TrimSuffix(name, "/zk"), "/")
+	if len(parts) < 2 {
+		return nil
+	}
+	comp := ""
+	if len(parts) > 2 {
+		comp = parts[2]
+	}
+	switch parts[1] {
+	case "k256":
+		return ecFam(newEC("k256", k256.NewCurve()), parts[0], comp)
+	case "bls12381g1":
+		return ecFam(newEC("bls12381g1", bls12381.NewG1()), parts[0], comp)
+	}
+	return nil
+}
+
+func ecFam[P curves.Point[P, F, S], F algebra.FieldElement[F], S algebra.PrimeFieldElement[S]](e *ecCtx[P, F, S], fam, comp string) *niInst {
+	switch fam {
+	case "schnorr":
+		return compOf(schnorrCase(e), comp)
+	case "batchschnorr2":
+		return compOf(batchSchnorrCase(e, 2), comp)
+	case "batchschnorr3":
+		return compOf(batchSchnorrCase(e, 3), comp)
+	case "okamoto":
+		return compOf(okamotoCase(e), comp)
+	case "elcomop":
+		return compOf(elcomopCase(e), comp)
+	case "elog":
+		return compOf(elogCase(e), comp)
+	}
+	return nil
+}
+
+func compOf[X sigma.Statement, W sigma.Witness, A sigma.Statement, S sigma.State, Z sigma.Response](c *sigCase[X, W, A, S, Z], comp string) *niInst {
+	switch comp {
+	case "":
+		return c.ni()
+	case "and2":
+		return andCase(c, 2).ni()
+	case "and3":
+		return andCase(c, 3).ni()
+	case "orL":
+		return orCase(c, 0).ni()
+	case "orR":
+		return orCase(c, 1).ni()
+	}
+	return nil
+}
 
 // heavyInsts: the Paillier-based protocols with fixed test keys (plain composition). Each is built lazily (a child
 // process builds only the one it needs).
@@ -624,7 +695,7 @@ func TestCheck(t *testing.T) {
 		"/verif/mc/ref/cbor parses and re-encodes canonical CBOR losslessly (asserted on every proof/message before mutation)",
 		"exemption rule, decided mechanically: an accepted edit is the same proof iff Marshal(Unmarshal(edited)) == original bytes",
 		"the sid-field-only context edit overwrites the private sid of a session.Context by reflection; it isolates the explicit session-id binding from the transcript binding (sid and initial transcript both derive from the common seed)",
-		"verifications whose DECODED input carries a nil component run in a child process (re-exec of this binary) because a nil dereference inside a library errgroup goroutine is unrecoverable; 'crash@site' = the child was killed, 'panic@site' = recoverable panic, site = first library frame under the panic",
+		"every structure-changing edit (all classes except value bits and splices) is verified in a child process (re-exec of this test binary, batched per chunk) because a panic inside a library errgroup goroutine (sigand/sigor/encryption workers) cannot be recovered by any caller; 'crash@site' = the child process was killed by such a panic, 'panic@site' = a panic recovered in the caller's goroutine; site = first library frame under the panic",
 		"Paillier / ring-Pedersen test keys are built from fixed primes (table shared with C16); key-size floors are relaxed because the check is a test binary",
 		"two simultaneous edits, adversarially computed proofs and timing are outside the space", "purego build of the library")
 
@@ -644,8 +715,10 @@ func TestCheck(t *testing.T) {
 		}
 		for _, c := range compilers {
 			cf := cfg{n: n, c: c, mode: bitsAll, chunk: 96}
-			if c == fiatshamir.Name && !engine.Thorough() && (strings.HasSuffix(n.name, "/and3") || strings.HasSuffix(n.name, "/orR")) {
-				// quick: every bit for plain, AND2 and OR-left; AND3 / OR-right (same code paths) use LSB/middle/MSB per leaf
+			if c == fiatshamir.Name && !engine.Thorough() && !pl.allBits[n] {
+				// quick, Fiat-Shamir: every bit of the proof for every plain protocol on k256 and for the AND2 / OR-left
+				// compositions of Schnorr, batch-Schnorr(2) and Okamoto; the other compositions (same composition code
+				// over the same leaves) and the BLS slice use LSB/middle/MSB per leaf
 				cf.mode = bitsLeaf
 			}
 			if c != fiatshamir.Name {
@@ -716,7 +789,9 @@ func TestCheck(t *testing.T) {
 		engine.Explore(contextBody(cfgs), engine.Opts{Name: "context+statement/ec", MaxFails: 1 << 20, Budget: engine.Budget(4*time.Minute, 30*time.Minute)})
 		engine.Explore(proofEditBody(cfgs), engine.Opts{Name: "proof-edits/ec", MaxFails: 1 << 20, Budget: engine.Budget(6*time.Minute, 90*time.Minute)})
 		engine.Explore(sigmaBody(all), engine.Opts{Name: "sigma-level/ec", Budget: engine.Budget(2*time.Minute, 10*time.Minute)})
-		engine.Explore(iaBody(zkList(zkSet)), engine.Opts{Name: "zk-compiler/ec", MaxFails: 1 << 20, Budget: engine.Budget(3*time.Minute, 30*time.Minute)})
+		if len(zkList(zkSet)) > 0 {
+			engine.Explore(iaBody(zkList(zkSet)), engine.Opts{Name: "zk-compiler/ec", MaxFails: 1 << 20, Budget: engine.Budget(3*time.Minute, 30*time.Minute)})
+		}
 	}
 	var sec *engine.Section
 	if len(heavy) > 0 {
@@ -759,6 +834,6 @@ func TestCheck(t *testing.T) {
 	}
 	printTally(sec)
 	if sec != nil {
-		sec.Note("verifications isolated in child processes (decoded value carried a nil component): %d, of which the child was killed by an unrecoverable panic: %d; total child wall time %.1fs", childCount.Load(), childCrashes.Load(), float64(childNanos.Load())/1e9)
+		sec.Note("structure-changing edits verified in child processes: %d jobs in %d processes, %d of them killed the child (unrecoverable panic in a library goroutine); total child wall time %.1fs", childJobs.Load(), childCount.Load(), childCrashes.Load(), float64(childNanos.Load())/1e9)
 	}
 }
